@@ -492,7 +492,7 @@ func loginImpl(line string) string {
 	return fmt.Sprintf("%s %d # %s", r.outcome, r.sent, verdict)
 }
 
-var loginEdits = []string{"la:5", "la:6", "la:7", "dn:0", "dn:2", "dn:1", "dn:16", "msg:35", "msg:31", "msg:1", "pf:ill", "pf:il", "pf:illl", "pf:lli", "pf:ivl", "pf:ibl", "pf:ilb", "pf:ibb",
+var loginEdits = []string{"la:5", "la:6", "la:7", "dn:0", "dn:2", "dn:1", "dn:16", "dn:256", "dn:32768", "dn:258", "msg:35", "msg:31", "msg:1", "pf:ill", "pf:il", "pf:illl", "pf:lli", "pf:ivl", "pf:ibl", "pf:ilb", "pf:ibb",
 	"pm:i1,k,n16", "pm:i2,k,n16", "pm:i1,kb,n16", "pm:i1,kt,n16", "pm:i1,kw,n16", "pm:i1,kl,n16", "pm:i1,kz,n16", "pm:i1,kn,n16", "pm:i1,kh,n16", "pm:i1,k,n0", "pm:i1,e,n16", "pm:i1,k,n60", "env:2048", "cap:ok", "cap:okz", "cap:zero", "cap:noreq", "cap:nores", "cap:empty", "eed", "ot", "|"}
 
 func pmFor(pf string, rng *mrand.Rand) string {
